@@ -1,6 +1,6 @@
 #!/usr/bin/env python3
 """C11 - event handlers run exactly once, in order, and may re-register from callbacks."""
-import itertools, json, os, sys
+import itertools, json, os, subprocess, sys, time
 sys.path.insert(0, os.path.join(os.path.dirname(os.path.abspath(__file__)), "..", "lib"))
 import verif
 
@@ -141,10 +141,101 @@ def enable_flags(old, new):
     return f
 
 
+# ---------------------------------------------------------------------------------------
+# running the harness: incident budget and attribution (lib/verif.py is shared, so the two functions
+# the check driver looks up at call time are wrapped here)
+# ---------------------------------------------------------------------------------------
+MAX_INCIDENTS = 2          # crashes / hangs of the real code after which the remaining cases are not run
+SHRINK_WALL_S = 30.0       # wall clock budget of all shrinking of one run
+_orig_run_side, _orig_shrink = verif.run_side, verif.shrink_case
+_state = {"cut": None, "unrun": set(), "shrink_t0": None}
+
+
+def _once(cmd, text, to, env):
+    try:
+        p = subprocess.run(cmd, input=text.encode(), stdout=subprocess.PIPE, stderr=subprocess.PIPE, timeout=to, env=env)
+        return p.returncode, p.stdout.decode("utf-8", "replace"), p.stderr.decode("utf-8", "replace"), False
+    except subprocess.TimeoutExpired as ex:
+        return -9, (ex.stdout or b"").decode("utf-8", "replace"), (ex.stderr or b"").decode("utf-8", "replace"), True
+
+
+def _detail(se):
+    """sanitizer report / watchdog message, with the PHASE line of the harness kept in front"""
+    ph = [l for l in se.split("\n") if l.startswith(("PHASE: ", "ERROR: HANG"))]
+    return "\n".join(ph[:2]) + "\n" + verif._clip(se)
+
+
+def run_side(cmd, cases, timeout_per_case=5.0, env=None, min_timeout=20.0):
+    """verif.run_side for the harness, with these differences:
+    (1) attribution: the harness tears the previous case down (vbi_decoder_delete) when it reads `case k`; it
+        says so in a PHASE line (watchdog and AddressSanitizer reports), and an incident in that phase belongs
+        to case k-1; k is then run again.  Without a PHASE line (UBSan, assert) an incident before the first
+        output line of case k is re-tried on k-1 alone.
+    (2) the harness's own watchdog (exit code 94; 1 s CPU or 5 s wall per op / teardown) is a hang, not a crash;
+        in a batch it is confirmed by running the case alone (a starved process on the shared machine is no hang).
+    (3) after MAX_INCIDENTS incidents the remaining cases are not run: every one of them can cost two watchdog
+        periods (two mutants of vbi_event_handler_register made every teardown spin: ~5000 x 10 s, the check
+        never reported).  The model side is cut at the same case and the oracle skips what was not run."""
+    if cmd[0] == verif.model_exe():
+        if _state["cut"] is not None and len(cases) > 1:
+            cases = cases[:_state["cut"]]
+        return _orig_run_side(cmd, cases, timeout_per_case, env, min_timeout)
+    outputs, incidents = {}, []
+    start, n = 0, len(cases)
+    e = dict(os.environ); e.update(verif.SAN_ENV)
+    if env: e.update(env)
+    alone_to = max(min_timeout, timeout_per_case * 4)
+    while start < n:
+        if len(incidents) >= MAX_INCIDENTS:
+            if n > 1:
+                _state["cut"] = start
+                _state["unrun"] = {id(c) for c in cases[start:]}
+            break
+        rc, so, se, hung = _once(cmd, verif.flatten(cases[start:], start), max(min_timeout, timeout_per_case * (n - start)), e)
+        got = verif.split_cases(so)
+        outputs.update(got)
+        if rc == 0 and not hung:
+            break
+        last = max(got.keys()) if got else start
+        who, resume = last, last + 1
+        if "PHASE: teardown of the previous case" in se and last > start:
+            who, resume = last - 1, last
+        elif "PHASE: " not in se and last > start and not got.get(last) and not hung:
+            rc2, so2, se2, hung2 = _once(cmd, verif.flatten([cases[last - 1]], last - 1), alone_to, e)
+            if rc2 != 0 or hung2:
+                who, resume, rc, se, hung = last - 1, last, rc2, se2, hung2
+        if n > 1 and (hung or rc == 94):
+            # watchdog (of the harness or of this driver): attributed only when the case alone fails too
+            rc2, so2, se2, hung2 = _once(cmd, verif.flatten([cases[who]], who), alone_to, e)
+            if rc2 == 0 and not hung2:
+                outputs.update(verif.split_cases(so2))
+                C11.stats["harness_watchdog_false_alarms"] = C11.stats.get("harness_watchdog_false_alarms", 0) + 1
+                start = resume
+                continue
+            rc, se, hung = rc2, se2, hung2
+        kind = "hang" if (hung or rc == 94) else "crash"
+        incidents.append({"case": who, "kind": kind, "rc": rc,
+                          "detail": ("no progress within the driver's watchdog\n" if hung else "") + _detail(se)})
+        start = resume
+    return outputs, incidents
+
+
+def shrink_case(case, still_fails, budget=200):
+    """ddmin of verif with a wall clock budget: a candidate that still hangs costs a watchdog period"""
+    if _state["shrink_t0"] is None:
+        _state["shrink_t0"] = time.time()
+    def still(c):
+        return time.time() - _state["shrink_t0"] < SHRINK_WALL_S and still_fails(c)
+    return _orig_shrink(case, still, budget)
+
+
+verif.run_side, verif.shrink_case = run_side, shrink_case
+
+
 class C11(verif.Spec):
     prop = "C11"
     comp = "ev"
-    lean_modules = ["ZvbiModel.Props.C11"]
+    lean_modules = ["ZvbiModel.Props.C11", "ZvbiModel.Props.C11Enable"]
     harness = "ev_harness"
     harness_link_lib = True
     harness_extra = ["-Wl,--wrap=calloc", "-Wl,--wrap=malloc"]
@@ -152,13 +243,17 @@ class C11(verif.Spec):
     partial_note = ("ttx_acquired_iff_handler is proved for the model's gate (event_mask & TTX_EVENTS, constants and the gate "
                     "expression regenerated from packet.c); that the Teletext decoder really ignores packets < 30 is judged "
                     "by the oracle (`ttx` op) on the real code, not proved. Deliveries end only for behaviours that stop "
-                    "adding handlers (send_terminates); for the others every statement is about terminated deliveries.")
+                    "adding handlers (send_terminates); for the others every statement is about terminated deliveries. "
+                    "vbi_event_enable: the program is regenerated statement by statement and proved to reset exactly the requested "
+                    "classes; what the called reset functions do inside their object is not modelled (observed by sentinels, op `enab`).")
     assumptions = ["single thread (cross-thread use is C20); pthread_mutex_trylock fails iff this thread holds the default mutex",
                    "allocation failure is outside the property (injected only so that model and code are compared on that path too)",
                    "a callback does not raise events itself (vbi_decode / vbi_send_event from a handler self-deadlocks on the "
                    "non-recursive mutex and is documented as forbidden)",
                    "masks and event types are 32 bit (C int)"]
-    trusted_base = ["translate/gen_ev.py (event bits, TTX_EVENTS gate, vbi_event_enable branch sets; cross-checked by the `consts` op)",
+    trusted_base = ["translate/gen_evenable.py (statements of vbi_event_enable -> Generated/EvEnable.lean; fails on anything it does not know; "
+                    "cross-checked by the `enab` op on the real function)",
+                    "translate/gen_ev.py (event bits, TTX_EVENTS gate, vbi_event_enable branch sets; cross-checked by the `consts` op)",
                     "harness/ev_harness.c + lean/Driver/Ev.lean (correspondence of add/remove/register/unregister/send incl. callbacks)",
                     "record ids in the harness come from watching vbi->handlers (shadow list), not from the model"]
     open_statements = []
@@ -187,6 +282,14 @@ class C11(verif.Spec):
     def gen_cases(self, rng, tier):
         quick = tier == "quick"
         cases = [["consts"]]
+        # 0. vbi_event_enable on a decoder full of sentinels: every pair of the interesting masks, plus random ones
+        EM = [0, 1, 2, 4, 8, 0x10, 0x40, 0x80, 0xC0, 0x100, 0x108, 0x400, 0x800, 0x802, 0x48, 0x180, 0x7FFFFFFF, 0xFFFFFFFF]
+        pairs = [(o, n_) for o in EM for n_ in EM]
+        for _ in range(60 if quick else 2000):
+            pairs.append((rng.randrange(1 << 12) | (rng.getrandbits(32) if rng.random() < 0.2 else 0), rng.randrange(1 << 12)))
+        for k in range(0, len(pairs), 16):
+            cases.append(["enab %d %d" % p_ for p_ in pairs[k:k + 16]])
+        cases.append(["enab", "enab 1", "enab 1 2 3", "enab x 1", "enab 1 4294967296", "enab -1 2", "enab 0 0"])
         # 1. exhaustive small: three handlers A B C; scripts over an alphabet of calls that name
         #    themselves / the next / the previous / a new handler, for every sender position
         A, B, C, D = (0, 1), (1, 2), (2, 7), (3, 0)
@@ -339,6 +442,7 @@ class C11(verif.Spec):
     def classify(self, case):
         kinds = set(l.split()[0] for l in case)
         if case == ["consts"]: return "consts"
+        if "enab" in kinds: return "enable"
         if any(k.startswith("l") for k in kinds):
             nested = any("send:" in l for l in case if l.startswith("lscript"))
             return "list2+nested-send" if nested else ("list2+scripts" if "lscript" in kinds else "list2")
@@ -350,6 +454,9 @@ class C11(verif.Spec):
     # -----------------------------------------------------------------------------------
     def oracle(self, case, out):
         """the property itself on the output of the real code (no use of the model)"""
+        if id(case) in _state["unrun"]:
+            self.stats["cases_not_run_after_incident_limit"] = len(_state["unrun"])
+            return None
         if len(out) != len(case):
             return "output count %d != ops %d" % (len(out), len(case))
         if any(l.startswith("l") for l in case):
@@ -372,6 +479,11 @@ class C11(verif.Spec):
             if ws[0] == "consts":
                 if line != "ok close=1 ttx=2 caption=4 network=8 trigger=16 aspect=64 proginfo=128 netid=256 localtime=1024 progid=2048":
                     return "event constants changed: " + line
+                continue
+            if ws[0] == "enab":
+                w = self.oracle_enab(int(ws[1], 0), int(ws[2], 0), line)
+                if w: return "op %d: %s" % (opi, w)
+                self.bump("ev.enable_probes")
                 continue
             if ws[0] == "script":
                 sc = parse_script(ws[3]) if len(ws) == 4 else None
@@ -490,6 +602,33 @@ class C11(verif.Spec):
                         opi, p, "acquired" if o["acq"] else "not acquired", "a" if want else "no")
         return None
 
+
+    # -----------------------------------------------------------------------------------
+    def oracle_enab(self, old, new, line):
+        """vbi_event_enable (vbi, new) with event_mask = old on a decoder full of sentinels: every service whose
+        events become requested is in its reset state afterwards (0; prog_info[1].future = TRUE), everything
+        else - the other services and the rest of struct vbi_decoder - still holds its sentinel (7)"""
+        try:
+            kv = {k: int(v) for k, v in (x.split("=") for x in line.split()[1:])}
+        except ValueError:
+            return "unparsable output %r" % line
+        gain = new & ~old & 0xFFFFFFFF
+        prog = bool(gain & 0xC0) and not old & 0xC0
+        exp = {"em": new,
+               "ttx": 0 if gain & 2 else 7, "cc": 0 if gain & 4 else 7,
+               "net": 0 if gain & 0x108 else 7, "cyc": 0 if gain & 0x108 else 7, "ann": 0 if gain & 0x108 else 7,
+               "trg": 0 if gain & 0x10 else 7,
+               "pi0": 0 if prog else 7, "pi1": 0 if prog else 7, "fut0": 0 if prog else 7, "fut1": 1 if prog else 7,
+               "asp": 0 if prog else 7, "pid": 0 if gain & 0x800 else 7, "rest": 7}
+        what = {"ttx": "Teletext state", "cc": "caption state", "net": "vbi->network", "cyc": "cni_cycle", "ann": "cni_announced",
+                "trg": "trigger list", "pi0": "prog_info[0]", "pi1": "prog_info[1]", "fut0": "prog_info[0].future",
+                "fut1": "prog_info[1].future", "asp": "aspect_source", "pid": "vps_pid", "rest": "rest of struct vbi_decoder",
+                "em": "event_mask"}
+        for k in exp:
+            if kv.get(k) != exp[k]:
+                return "vbi_event_enable(%#x) with event_mask %#x: %s is %s, expected %s (0 reset, 7 untouched)" % (
+                    new, old, what[k], kv.get(k), exp[k])
+        return None
 
     # -----------------------------------------------------------------------------------
     def oracle_l(self, case, out):
